@@ -735,6 +735,8 @@ class Interp:
                         return v
                     val = v
                     continue
+                if last:
+                    return v        # `concrete-falsy or x` / `concrete-truthy and x`: the value is x itself
                 # symbolic: from here on combine as boolean terms (the value of `a and b` is only used as truth value
                 # in the code base when a is symbolic); operands are evaluated eagerly under merge mode
                 acc = t
@@ -791,6 +793,9 @@ class Interp:
     def binop(self, op, a, b):
         if isinstance(a, Opaque) or isinstance(b, Opaque):
             return Opaque(f"binop {op}")
+        if op == "*" and isinstance(a, list) and len(a) == 1 and isinstance(b, SV) and b.is_int() and not getattr(self, "opaque_loops", False):
+            from .arrays import BroadcastList
+            return BroadcastList(a[0], b)
         if op == "%" and isinstance(a, str):
             if isinstance(b, tuple):
                 b = tuple(self.to_str(x) if isinstance(x, (SV, CV, Opaque, PDict, PSet)) else x for x in b)
